@@ -72,7 +72,7 @@ func init() {
 				n = 60000
 			}
 			out = append(out, seeded("C14", seed, n, func(i int, sd uint64) *k.Spec {
-				s := &k.Spec{Params: cp(cells[int(k.H(sd, "cell", 0)%uint64(len(cells)))])}
+				s := &k.Spec{Seed: sd, Params: cp(cells[int(k.H(sd, "cell", 0)%uint64(len(cells)))])}
 				if tier == "thorough" && i%50 == 0 {
 					s.Params["big"] = "8388608"
 				}
